@@ -143,17 +143,27 @@ Ltac st_cbn_all :=
 
 (* split every match of the goal, innermost scrutinee first *)
 Ltac split_goal_matches :=
-  repeat match goal with
-         | |- context [match ?x with _ => _ end] =>
-             lazymatch x with
-             | context [match _ with _ => _ end] => fail
-             | _ => first [is_var x; destruct x | destruct x eqn:?]
-             end
-         end.
+  repeat first
+    [ match goal with
+      | |- context [match ?x with _ => _ end] =>
+          lazymatch x with
+          | context [match _ with _ => _ end] => fail
+          | _ => first [is_var x; destruct x | destruct x eqn:?]
+          end
+      end
+    | match goal with
+      | |- context [match ?x with _ => _ end] => first [is_var x; destruct x | destruct x eqn:?]
+      end ].
 
-(* a leaf: the result is a wf state *)
+Create HintDb nopanic discriminated.
+(* a leaf: the result is a wf state; a [Panic] leaf must be unreachable *)
 Ltac wf_leaf :=
-  cbv beta iota; unfold ok_state; cbv beta iota; try exact I;
+  cbv beta iota;
+  lazymatch goal with
+  | |- ok_state Panic => exfalso; solve [eauto with nopanic]
+  | |- _ => idtac
+  end;
+  unfold ok_state; cbv beta iota; try exact I;
   let FT := fresh "FT" in intros FT;
   wf_hyps; constructor; st_cbn;
   try assumption; auto 8 with wf.
